@@ -24,6 +24,7 @@ type Env struct {
 	lets  map[string]ast.Expr
 	depth int
 	outer *Env // the environment outside the innermost quantifier
+	loopHdr *ssa.BasicBlock // invariant of this loop: names of its header phis win over same-named phis of other loops
 }
 
 func (env *Env) clone() *Env {
@@ -265,7 +266,7 @@ func (e *Exec) evalIdent(env *Env, x *ast.Ident) (Val, error) {
 	}
 	// loop-carried SSA values (phis) and named values of the root frame
 	if env.frame != nil {
-		if v, ok := e.lookupSSAName(env.frame, x.Name); ok {
+		if v, ok := e.lookupSSAName(env.frame, x.Name, env.loopHdr); ok {
 			return v, nil
 		}
 		if env.frame == e.rootFrame {
@@ -286,19 +287,24 @@ func (e *Exec) evalIdent(env *Env, x *ast.Ident) (Val, error) {
 	return Val{}, fmt.Errorf("unknown identifier %q", x.Name)
 }
 
-func (e *Exec) lookupSSAName(f *Frame, name string) (Val, bool) {
-	// innermost: phis by comment; parameters; free variables
+func (e *Exec) lookupSSAName(f *Frame, name string, prefer ...*ssa.BasicBlock) (Val, bool) {
+	// phis by comment; parameters; free variables. Several loops may have a phi of the same name
+	// (rangeindex): the phi of the preferred loop header wins, otherwise the one of the outermost
+	// (lowest-numbered) block — never an arbitrary one.
 	var found *Val
+	foundIdx := -1
 	for v, val := range f.vals {
 		switch p := v.(type) {
 		case *ssa.Phi:
 			if p.Comment == name {
 				vv := val
-				if found != nil {
-					// ambiguous: prefer the phi of the loop header currently being processed -> pick the lowest block index
-					continue
+				if len(prefer) > 0 && prefer[0] != nil && p.Block() == prefer[0] {
+					return vv, true
 				}
-				found = &vv
+				if found == nil || p.Block().Index < foundIdx {
+					found = &vv
+					foundIdx = p.Block().Index
+				}
 			}
 		case *ssa.Parameter:
 			if p.Name() == name {
@@ -1148,6 +1154,9 @@ func (e *Exec) evalPureCall(env *Env, fn *ssa.Function, argExprs []ast.Expr) (Va
 		}()
 	}
 	sig := fn.Signature
+	if funcHasBackEdge(fn) {
+		return Val{}, fmt.Errorf("contract calls %s, which has a loop and cannot be evaluated by inlining; state its meaning explicitly", fn.Name())
+	}
 	var args []Val
 	for i, a := range argExprs {
 		var v Val
@@ -1221,7 +1230,7 @@ func (e *Exec) snapshotNames(env, dst *Env, ex ast.Expr, seen map[string]bool) {
 			}
 			saved := e.inQuant
 			e.inQuant = 0
-			if v, ok := e.lookupSSAName(env.frame, name); ok {
+			if v, ok := e.lookupSSAName(env.frame, name, env.loopHdr); ok {
 				dst.vars[name] = v
 			} else if env.frame == e.rootFrame {
 				if v, ok := e.localNames[name]; ok {
@@ -1234,4 +1243,17 @@ func (e *Exec) snapshotNames(env, dst *Env, ex ast.Expr, seen map[string]bool) {
 		}
 		return true
 	})
+}
+
+// funcHasBackEdge: the function's CFG has a cycle (a block with a successor of smaller or equal index
+// that dominates it).
+func funcHasBackEdge(fn *ssa.Function) bool {
+	for _, b := range fn.Blocks {
+		for _, s := range b.Succs {
+			if s.Dominates(b) {
+				return true
+			}
+		}
+	}
+	return false
 }
